@@ -70,6 +70,12 @@ CHECKS.update({
             'delays around the retry timer, both protocol generations, cold and warm cache; the tables the library holds when `connected` fires '
             'are compared entry for entry with the device spec and the three lookup paths are cross-checked.',
             'Duplicates are limited to what the protocol can produce; device model is mine.'),
+    'C11': ('fault_enumeration', 'DESIGN.md 3/C11', 'dsched+simcf',
+            'exhaustive truncation of every byte offset of generated cache files + garbage/dir/missing variants + neighbouring checksums (direct); damaged caches and CRC collisions through real connections under the deterministic scheduler (integrated)',
+            'For every generated table the cache file is cut at every byte offset and fetched again (None or identical table), directory '
+            'combinations and near-miss checksums are exercised, the read-only directory is compared byte for byte, and damaged/colliding '
+            'caches are fed to a real connection that must still reach `connected` with the device tables.',
+            'Crash model = prefix of the intended file; corruptions that remain valid JSON are out of scope of the statement.'),
 })
 
 ALL = ['C%02d' % i for i in range(1, 21)]
